@@ -2,10 +2,14 @@ use crate::run::{CheckMeta, Ctx, ShardResult};
 use serde_json::json;
 
 pub mod c_hist;
+pub mod c02;
+pub mod c06;
 
 pub fn meta(id: &str, tier: &str) -> Option<CheckMeta> {
     match id {
         "C01" | "C04" => Some(c_hist::meta(id, tier)),
+        "C02" => Some(c02::meta(tier)),
+        "C06" => Some(c06::meta(tier)),
         _ => None,
     }
 }
@@ -27,6 +31,8 @@ pub fn prebuild(_id: &str) -> Result<(), String> {
 pub fn worker(ctx: &Ctx, res: &mut ShardResult) {
     match ctx.id.as_str() {
         "C01" | "C04" => c_hist::worker(ctx, res),
+        "C02" => c02::worker(ctx, res),
+        "C06" => c06::worker(ctx, res),
         _ => panic!("unknown check"),
     }
 }
@@ -38,6 +44,8 @@ pub fn replay(path: &str) -> i32 {
     println!("replaying {} [{}]: {}", id, v["fingerprint"].as_str().unwrap_or(""), v["what"].as_str().unwrap_or(""));
     let msgs = match id {
         "C01" | "C04" => c_hist::replay(id, &v["case"]),
+        "C02" => c02::replay(&v["case"]),
+        "C06" => c06::replay(&v["case"]),
         _ => vec![format!("no replayer for {}", id)],
     };
     let _ = json!(null);
